@@ -5,7 +5,7 @@ import udp_common as U
 META = {
     'engine': 'frame',
     'technique': 'Coq codec round-trip and layout proofs for the transcribed framing pipeline and invariant proofs for the modelled nonce generator; independent README-based decoder and byte-exact replay of every emitted datagram',
-    'level_text': "Machine-checked on the transcribed sequential pipeline (segment codec, FEC header numbering, nonce/CRC framing for the CRC cipher classes and nonce+seal for AEAD, with the cipher, CRC and Reed-Solomon encoder abstract): parse(encode s) = s with the documented offsets; a decoder written from the README alone recovers the core datagram from every frame (data, parity, OOB; every cipher class; FEC on/off); FEC ids advance modulo paws counting skipped parity, type = data iff position < d, ids distinct within a wrap period, OOB consumes no id; parity payloads are the RS code of the zero-padded size-prefixed payloads (relative to rs_encode); distinct nonces give pairwise distinct datagrams. Tied to sess.go/fec.go/kcp.go by capturing EVERY datagram real sessions hand to the PacketConn over a lossy in-memory network for all cipher classes x FEC ratios x MTUs x write patterns, decoding it with an independent Go decoder and with the extracted spec decoder, regenerating each direction's emission sequence byte for byte in the extracted model, and recomputing parity with klauspost/reedsolomon.", 'level_note': 'Trusted: Coq kernel; extraction and ml/frame_driver.ml; the overlay harness; the real ciphers, CRC32 and Reed-Solomon are abstract in the theorems (their laws are explicit premises) and library code in the harness. Nonce non-repetition is a hypothesis about AES and crypto/rand; the own logic of the generator (entropy.go rngAES: counter, reseed, seed chaining, ReadFull) is modelled in coq/frame/Entropy.v with the block function and crypto/rand abstract, proved to keep every key to at most reseedInterval+1 outputs and to emit pairwise distinct 16-byte nonces within an epoch unless the seed orbit of the injective block function closes, and replayed against the real rngAES (toy cipher.Block, scripted crypto/rand, counters at the reseed boundary). rngChacha8 and 12-byte AEAD nonce collisions are not covered by a theorem. The sendmmsg batch path over real UDP sockets is not exercised.',
+    'level_text': "Machine-checked on the transcribed sequential pipeline (segment codec, FEC header numbering, nonce/CRC framing for the CRC cipher classes and nonce+seal for AEAD, with the cipher, CRC and Reed-Solomon encoder abstract): parse(encode s) = s with the documented offsets; a decoder written from the README alone recovers the core datagram from every frame (data, parity, OOB; every cipher class; FEC on/off); FEC ids advance modulo paws counting skipped parity, type = data iff position < d, ids distinct within a wrap period, OOB consumes no id; parity payloads are the RS code of the zero-padded size-prefixed payloads (relative to rs_encode); distinct nonces give pairwise distinct datagrams. Tied to sess.go/fec.go/kcp.go by capturing EVERY datagram real sessions hand to the PacketConn over a lossy in-memory network for all cipher classes x FEC ratios x MTUs x write patterns, decoding it with an independent Go decoder and with the extracted spec decoder, regenerating each direction's emission sequence byte for byte in the extracted model, and recomputing parity with klauspost/reedsolomon.", 'level_note': 'Trusted: Coq kernel; extraction and ml/frame_driver.ml; the overlay harness; the real ciphers, CRC32 and Reed-Solomon are abstract in the theorems (their laws are explicit premises) and library code in the harness. Nonce non-repetition is a hypothesis about AES and crypto/rand; the own logic of the generator (entropy.go rngAES: counter, reseed, seed chaining, ReadFull) is modelled in coq/frame/Entropy.v with the block function and crypto/rand abstract, proved to keep every key to at most reseedInterval+1 outputs and to emit pairwise distinct 16-byte nonces within an epoch unless the seed orbit of the injective block function closes, and replayed against the real rngAES (toy cipher.Block, scripted crypto/rand, counters at the reseed boundary). For rngChacha8 only the counter and reseed logic is modelled (generator abstract) and replayed; 12-byte AEAD nonce collisions are not covered by a theorem. The sendmmsg batch path over real UDP sockets is not exercised.',
 }
 
 FILES = ["frame_test.go"]
@@ -14,7 +14,7 @@ OBLIGATIONS = [
     "c09_spec_decoder", "c09_spec_decoder_oob", "c09_spec_decoder_parity",
     "c09_fec_ids", "c09_fec_ids_distinct", "c09_slots_distinct", "c09_oob_ids", "c09_parity_ids_consumed", "c09_parity_is_rs",
     "c09_fresh_nonce_each", "c09_distinct", "c09_orbit",
-    "c09_rng_key_exposure", "c09_rng_reseed_exact", "c09_rng_epoch_orbit", "c09_rng_epoch_nonces_distinct", "c09_rng_fill_is_one_read", "c09_rng_fill_total",
+    "c09_rng_key_exposure", "c09_rng_reseed_exact", "c09_rng_epoch_orbit", "c09_rng_epoch_nonces_distinct", "c09_rng_fill_is_one_read", "c09_rng_fill_total", "c09_rng_chacha_counter",
 ]
 
 
@@ -32,8 +32,12 @@ def entropy_part(ctx):
     logp = os.path.join(ctx.dir, "Entropy.log")
     if rep is None or not os.path.exists(logp):
         return
-    cases = []
+    cases, cha = [], []
     for line in open(logp):
+        if line.startswith("CHA "):
+            kv = dict(t.split("=", 1) for t in line.split()[1:])
+            cha.append("(%s, [%s], [%s], %s, %s)" % (kv["count0"], kv["lens"].replace(",", ";"), kv["gots"].replace(",", ";"), kv["count1"], kv["reseeds"]))
+            continue
         if not line.startswith("CASE "):
             continue
         kv = dict(t.split("=", 1) for t in line.split()[1:])
@@ -73,6 +77,18 @@ Definition ent_cases := [
 ].
 Definition ENTBAD := Eval vm_compute in bad chk 0 ent_cases.
 Print ENTBAD.
+(* rngChacha8: counter logic only - the generator is a stub that returns n bytes *)
+Definition cnext (g : unit) (n : Z) : unit * list Z := (tt, repeat 0 (Z.to_nat n)).
+Definition chk_c (c : Z * list Z * list Z * Z * Z) : bool :=
+  match c with (c0, lens, gots, c1, rs) =>
+    let '(r, o) := c_reads unit cnext (fun _ g => g) lens (mkCrng 0%nat tt c0) in
+    (if list_eq_dec Z.eq_dec (map (fun l : list Z => Z.of_nat (length l)) o) gots then true else false)
+    && Z.eqb (c_count r) c1 && Z.eqb (Z.of_nat (c_epoch r)) rs end.
+Definition cha_cases : list (Z * list Z * list Z * Z * Z) := [
+""" + ";\n".join(cha) + r"""
+].
+Definition CHABAD := Eval vm_compute in bad chk_c 0 cha_cases.
+Print CHABAD.
 """
     vf = os.path.join(ctx.dir, "EntCases.v")
     open(vf, "w").write(src)
@@ -86,6 +102,17 @@ Print ENTBAD.
         ctx.broke("entropy: no verdict from the model replay", o[-2000:])
         return
     badl = [x.strip() for x in m.group(1).split(";") if x.strip()]
+    mc = re.search(r"CHABAD = \[(.*?)\]", " ".join(o.split()))
+    if mc is None:
+        ctx.broke("entropy: no verdict from the model replay of rngChacha8", o[-2000:])
+        return
+    badc = [x.strip() for x in mc.group(1).split(";") if x.strip()]
+    if badc:
+        ctx.broke("correspondence: entropy.go rngChacha8 (counter, reseed, bytes returned) vs coq/frame/Entropy.v - the Coq model and the "
+                  "implementation differ on %d of %d cases (CHA cases %s of Entropy.log)" % (len(badc), len(cha), badc[:8]))
+    ctx.coverage.setdefault("model_replay", []).append({"cases": len(cha), "mismatches": len(badc),
+                                                        "what": "entropy.go rngChacha8.Read counter logic vs coq/frame/Entropy.v (c_reads), evaluated by vm_compute"})
+    ctx.coverage["traces_validated_against_impl"] = ctx.coverage.get("traces_validated_against_impl", 0) + len(cha)
     if badl:
         ctx.broke("correspondence: entropy.go rngAES vs coq/frame/Entropy.v - the Coq model and the implementation differ on %d of %d cases "
                   "(cases %s of Entropy.log)" % (len(badl), len(cases), badl[:8]))
